@@ -8,7 +8,7 @@
    drains, every accepted socket sees the end of the stream.
    (b) model: timed replay (Model.Client.run_life) and acceptance of the untimed callback
    trace by the two-process transition system (Model.Lifecycle.accepts). *)
-From RP Require Import Lib.Base Lib.Sexp Lib.Strings Model.Net Model.Client Model.Lifecycle Spec.NetSpec Run.NetCommon.
+From RP Require Import Lib.Base Lib.Sexp Lib.Strings Model.Net Model.Client Model.Lifecycle Model.Teardown Spec.NetSpec Run.NetCommon.
 From Coq Require Import String.
 Open Scope string_scope.
 Open Scope list_scope.
@@ -55,6 +55,26 @@ Definition untimed (o : list oev) : list lab :=
      | _ :: r => go r
      end) o.
 
+(* the panel of the LAST accepted connection stopped reading for good (peer kind 3) and the call was
+   cancelled during that connection: Model/Teardown.v says how that ends - with the watcher goroutine of
+   /repo 02bcd7d the call leaves the connection reporting disconnect(true)
+   (Props/C11.v c11_teardown_terminates, c11_blocked_writer_outcomes) *)
+Definition last_paused (o : list oev) : bool :=
+  let n := Z.of_nat (List.length (obs_accs o)) in
+  existsb (fun p => match p with (i, _, kind, _) => (kind =? 3) && (i =? n - 1) end) (obs_peers o).
+Fixpoint last_dis (cbs : list (option bool * Z)) (acc : option bool) : option bool :=
+  match cbs with
+  | [] => acc
+  | (Some b, _) :: r => last_dis r (Some b)
+  | (None, _) :: r => last_dis r None
+  end.
+Definition teardown_agrees (o : list oev) : bool :=
+  negb (last_paused o) ||
+  match blocked_cancel_outcome true, last_dis (obs_cbs o) None with
+  | Some b, Some b' => Bool.eqb b b'
+  | _, _ => false
+  end.
+
 Definition judge (s : scn) : sexp :=
   let o := s_obs s in
   if obs_inv o then mism "timing" "inv" []
@@ -86,6 +106,7 @@ Definition judge (s : scn) : sexp :=
       | Some v => v
       | None =>
         if negb (accepts_trace (untimed o)) then mism "content" "lifecycle-system-rejects-trace" []
+        else if negb (teardown_agrees o) then mism "content" "teardown-model-disagrees" []
         else
         match compare_client s (fun _ => None) with
         | Some v => v
